@@ -30,10 +30,14 @@ OBLIGATIONS = [
     "Grog.C02.restore_total",
     "Grog.C02.dir_restore_total",
     "Grog.C02.reexec_subset",
+    "Grog.C02.reexec_subset_history",
     "Grog.C02.early_cutoff",
     "Grog.C02.key_location_free",
     "Grog.C02.globout_witness",
+    "Grog.Compose.noop_rebuildK",
+    "Grog.Compose.noop_rebuild_real",
 ]
+PROP_MODULES = ["GrogModel.Props.C02", "GrogModel.Props.ComposeBuild"]
 ASSUMPTIONS = [
     "cache key injective on key-states (C09); restore exact and total from every prior destination state (C06)",
     "WF: declared output paths pairwise distinct, resolved inputs and check files disjoint from declared outputs",
